@@ -489,6 +489,37 @@ def check_format_signature(fx, rep, rule):
               expected='"({})" around parameters joined by ", "')
 
 
+def check_entry_points(fx, rep, rule):
+    """ProguardMapper / ProguardCache::deobfuscate_signature(sig) = <java.rs function>(sig, self).map(DeobfuscatedSignature::new)"""
+    for T, jn, impl in ((A.MAPPER, "deobfuscate_bytecode_signature", "mapper"), (A.CACHE, "deobfuscate_bytecode_signature_cache", "cache")):
+        p = A.one(rep, rule, "%s::deobfuscate_signature" % impl, A.method(fx, T, "deobfuscate_signature"))
+        jf = A.func(fx, "java", jn)
+        if not p or len(jf) != 1:
+            continue
+        rep.fn(p)
+        newp = A.method(fx, "mapper::DeobfuscatedSignature", "new")
+        opq = set(jf) | set(newp)
+        sy = S.Sym(fx, opaque=lambda q: q in opq)
+        try:
+            res = sy.eval_body(fx.bodies[p])
+        except S.Undecidable as e:
+            rep.undecidable(rule, "%s/entry/%s/shape" % (rule, impl), loc=F.short_file(fx.bodies[p]["sp"]), construct=e.msg)
+            continue
+        b = fx.bodies[p]
+        names = [prm["pat"]["name"] for prm in b["params"] if prm.get("pat") and prm["pat"].get("k") == "Bind"]
+        sig = [n_ for n_ in names if n_ != "self"]
+        inner = ("call", S.short_path(jf[0]), (("in", sig[0] if sig else "?"), ("in", "self")))
+
+        def ref(o):
+            if o(("is", inner, "Some")):
+                return some(("call", S.short_path(newp[0]) if newp else "?", (mk_payload(inner, "Some", "0"),)))
+            return NONE
+        bad, n = fc.compare_paths(res, ref, lambda st, out: out[1])
+        rep.check(rule, "%s/entry/%s" % (rule, impl), not bad and not any(st.effects for st, o in res), loc=F.short_file(b["sp"]),
+                  found=[("%s => %s" % (S.cstr(st.conds), S.tstr(o[1])))[:200] for st, o in res],
+                  expected="%s(<the given string>, self).map(DeobfuscatedSignature::new)" % jn)
+
+
 def run(ctx, rep):
     fx = ctx.facts("")
     rep.configs.append("default")
@@ -507,5 +538,13 @@ def run(ctx, rep):
     import api_rules as AR
     AR.check_getters(fx, rep, "C16.api", "mapper::DeobfuscatedSignature")
     AR.check_constructor(fx, rep, "C16.api", "mapper::DeobfuscatedSignature", "new", {"parameters": ("lit", mk_field(("in", "signature"), "0")), "return_type": ("lit", mk_field(("in", "signature"), "1"))})
+    check_entry_points(fx, rep, "C16.api")
+    # "replaced by the original class name when the mapping knows it": class registration in both builders and the
+    # exact class lookup (shared with C04.1 / C04.2) are premises of the object-type clause and of mapper == cache
+    import builder_rules as BR
+    import lookup_rules as LR
+    for impl in ("mapper", "cache"):
+        BR.check_class_header_arms(fx, rep, "C16.7", impl)
+    LR.check_class_lookup(fx, rep, "C16.7")
     n = R2.check_twins(fx, rep, "C16.5")
     rep.floor("C16.5", n, 6, "twin pairs")
